@@ -285,7 +285,11 @@ func run(r *mon.Run) {
 				var vok bool
 				var logbuf bytes.Buffer
 				p, pv := r.Call(fmt.Sprintf("read-ref/%d", i), file, func() {
-					back, rerr = signedexchange.ReadExchange(bytes.NewReader(file))
+					mem := append([]byte{}, file...)
+					back, rerr = signedexchange.ReadExchange(bytes.NewBuffer(mem))
+					for k := range mem {
+						mem[k] = 0xCC // the caller reuses its buffer
+					}
 					if rerr == nil {
 						payload, vok = back.Verify(time.Unix(date+10, 0), id.Fetcher(), log.New(&logbuf, "", 0))
 					}
